@@ -94,8 +94,65 @@ def expand_macro(spec):
     return "\n" * src.count("\n", 0, a) + body
 
 
+def _find_closures(src, toks, item):
+    """block closures `|..| [-> Ret] { .. }` inside a fn item, in source order: (start, body_open, end, ret_text)"""
+    if item.body_tok < 0:
+        raise Undecided("anchor has no body: " + item.name)
+    lo, hi = item.body_tok + 1, rustlex.match_close(toks, item.body_tok)
+    found = []
+    i = lo
+    while i < hi:
+        t = toks[i]
+        if t.text in ("|", "||") and toks[i - 1].text in ("(", ",", "=", "move", "{", ";", "return"):
+            j = i
+            if t.text == "|":
+                j = i + 1
+                while j < hi and toks[j].text != "|":
+                    if toks[j].text in ("(", "[", "{"):
+                        j = rustlex.match_close(toks, j)
+                    j += 1
+            j += 1
+            ret = ""
+            if toks[j].text == "-" and toks[j + 1].text == ">":
+                r0 = j + 2
+                while toks[j].text != "{":
+                    j += 1
+                ret = " -> " + src[toks[r0].start:toks[j - 1].end]
+            if toks[j].text == "{":
+                bc = rustlex.match_close(toks, j)
+                found.append((toks[i].start, toks[j].start, toks[bc].end, ret))
+                i = bc
+        i += 1
+    return found
+
+
+def extract_closure(spec):
+    """closure|<repo-rel-file>|<fn selector>|<k>|<name> -> `fn <name>(__CLOSURE_PARAMS__) [-> Ret] { body }` where body is the
+    verbatim block of the k-th closure expression (`|..| [-> Ret] { .. }`) inside the selected function.  The parameter
+    list (closures do not spell their parameter types, and captured variables become parameters) is supplied by the
+    template through a counted //@sub of __CLOSURE_PARAMS__.  Line numbers are those of the closure in the file."""
+    _, f, sel, k, name = spec.split("|")
+    path = os.path.join(REPO, f)
+    if not os.path.exists(path):
+        raise Undecided("anchor lost: file %s missing" % f)
+    src = open(path, encoding="utf-8").read()
+    try:
+        item, toks = rustlex.find_item(src, sel)
+    except KeyError as e:
+        raise Undecided(str(e))
+    found = _find_closures(src, toks, item)
+    k = int(k)
+    if k < 1 or k > len(found):
+        raise Undecided("anchor lost: %s has %d block closures, template wants #%d" % (sel, len(found), k))
+    c0, b0, b1, ret = found[k - 1]
+    return "\n" * src.count("\n", 0, c0) + "fn %s(__CLOSURE_PARAMS__)%s " % (name, ret) + src[b0:b1] + "\n"
+
+
 def read_src(src):
     if src in _VIRTUAL:
+        return _VIRTUAL[src]
+    if src.startswith("closure|"):
+        _VIRTUAL[src] = extract_closure(src)
         return _VIRTUAL[src]
     if src.startswith("expanded:"):
         raise Undecided("expanded source %s not produced in this run" % src)
@@ -409,6 +466,16 @@ def render_extraction(ex, gsubs, canary=None):
     for count, rx, repl, lno in list(gsubs) + ex.subs:
         if body_canary:
             count = None
+        mcl = re.search(r"@CLOSURE(\d+)@", rx)
+        if mcl:
+            # stands for the verbatim text of the k-th block closure of this function
+            cls = _find_closures(src, toks, item) if item.kind == "fn" else []
+            kk = int(mcl.group(1))
+            if kk < 1 or kk > len(cls):
+                if body_canary:
+                    continue
+                raise Undecided("anchor lost: %s %s has %d block closures, rewrite wants #%d" % (ex.src, ex.selector, len(cls), kk))
+            rx = rx.replace(mcl.group(0), re.escape(src[cls[kk - 1][0]:cls[kk - 1][2]]))
         def _keep_lines(m, repl=repl):
             out = m.expand(repl)
             missing = m.group(0).count("\n") - out.count("\n")
